@@ -347,6 +347,31 @@ impl Check for C14
 			"alpha spans are interpreted as char offsets into the source, as the renderer does".into(),
 		]
 	}
+	fn judge_bytes(&self, bytes: &[u8]) -> Option<CaseOut>
+	{
+		let mut out = CaseOut::default();
+		// the first-generation lexer takes text; other bytes are C15's subject
+		if let Ok(src) = std::str::from_utf8(bytes)
+		{
+			compare(src, None, &mut out);
+		}
+		Some(out)
+	}
+	fn fuzz_specs(&self, tier: Tier) -> Vec<FuzzSpec>
+	{
+		if tier == Tier::Quick
+		{
+			return Vec::new();
+		}
+		vec![FuzzSpec {
+			target: "fuzz_lexdiff",
+			runs_per_job: 200_000,
+			jobs: 14,
+			max_len: 2048,
+			seeds: crate::c15::fuzz_seed_corpus(2048, 150),
+			dictionary: crate::c15::fuzz_dictionary(),
+		}]
+	}
 	fn streams(&self) -> Vec<Box<dyn Stream>>
 	{
 		vec![Box::new(Exhaustive), Box::new(TokenStreams), Box::new(Malformed)]
